@@ -1228,6 +1228,8 @@ class ParsedEvent(EDXMLEvent, etree.ElementBase):
         return self
 
     def set_foreign_attributes(self, attribs):
+        for key in self.get_foreign_attributes().keys():
+            del self.attrib[key]
         for key, value in attribs.items():
             self.attrib[key] = value
 
@@ -1630,6 +1632,8 @@ class EventElement(EDXMLEvent):
         return self
 
     def set_foreign_attributes(self, attribs):
+        for key in self.get_foreign_attributes().keys():
+            del self.__element.attrib[key]
         for key, value in attribs.items():
             self.__element.attrib[key] = value
         return self
